@@ -192,12 +192,20 @@ class Isomorphism(Generic[ClassType1, ObjType1, ClassType2, ObjType2]):
         self, node1: ClassType1, node2: ClassType2
     ) -> Tuple[List[ClassType1], List[ClassType2]]:
         """Get path to nodes that are not on the LHS of equivalence rules."""
-        rule1, rule2 = self._rules1[node1], self._rules2[node2]
+        # A specification can contain several equivalence rules in a row (an
+        # equivalence path ends at every class that also occurs elsewhere), so
+        # follow them until a class that is not on the LHS of an equivalence rule.
         nodes1, nodes2 = [node1], [node2]
-        if rule1.is_equivalence():
-            nodes1.append(rule1.children[0])
-        if rule2.is_equivalence():
-            nodes2.append(rule2.children[0])
+        while self._rules1[nodes1[-1]].is_equivalence():
+            child1 = self._rules1[nodes1[-1]].children[0]
+            if child1 in nodes1:
+                break
+            nodes1.append(child1)
+        while self._rules2[nodes2[-1]].is_equivalence():
+            child2 = self._rules2[nodes2[-1]].children[0]
+            if child2 in nodes2:
+                break
+            nodes2.append(child2)
         return nodes1, nodes2
 
     def _base_cases(
